@@ -864,6 +864,9 @@ pub fn check(ctx: &CheckCtx) -> Option<Found> {
     if let Some(f) = ctx.search("inloop", in_strategy(), t.pick(6000, 200_000), 8, None, run_inloop) {
         return Some(f);
     }
+    if crate::ship::is_child() {
+        return None;
+    }
     if let Some(f) = ctx.search("sched", case_strategy(), t.pick(4000, 100_000), 6, None, run_case) {
         return Some(f);
     }
